@@ -21,34 +21,66 @@ const (
 
 var timeNames = []string{"PckCertChain", "TcbInfo", "QeIdentity", "PckCrl", "RootCaCrl"}
 
-// artifact is something with an expiry (and, for path-validated certificates, a start) judged at given times.
-type artifact struct {
+// judgement: window `name` is judged at time `ti`; notBefore matters when nb; in play from minLevel on.
+type judgement struct {
 	name     string
-	times    []int     // governing time indexes (the pool root is judged at three)
-	nb       bool      // notBefore is verdict-relevant (certificate on a validated path)
-	minLevel gen.Level // lowest level at which the artifact is in play
+	ti       int
+	nb       bool
+	minLevel gen.Level
 }
 
-var c06Artifacts = []artifact{
-	{"leaf", []int{tChain}, true, gen.LvlBase},
-	{"intermediate", []int{tChain}, true, gen.LvlBase},
-	{"quote-chain-root", []int{tChain}, false, gen.LvlBase},
-	{"pool-root", []int{tChain, tTcb, tQe}, true, gen.LvlBase},
-	{"tcbinfo-document", []int{tTcb}, false, gen.LvlColl},
-	{"tcbinfo-signer", []int{tTcb}, true, gen.LvlColl},
-	{"tcbinfo-header-root", []int{tTcb}, false, gen.LvlColl},
-	{"qeidentity-document", []int{tQe}, false, gen.LvlColl},
-	{"qeidentity-signer", []int{tQe}, true, gen.LvlColl},
-	{"qeidentity-header-root", []int{tQe}, false, gen.LvlColl},
-	{"pckcrl", []int{tPckCrl}, false, gen.LvlCRL},
-	{"pckcrl-header-signer", []int{tPckCrl}, false, gen.LvlCRL},
-	{"pckcrl-header-root", []int{tPckCrl}, false, gen.LvlCRL},
-	{"rootcrl", []int{tRootCrl}, false, gen.LvlCRL},
+// Separate certificates for every role (each role has its own window).
+var c06Separate = []judgement{
+	{"leaf", tChain, true, gen.LvlBase},
+	{"intermediate", tChain, true, gen.LvlBase},
+	{"quote-chain-root", tChain, false, gen.LvlBase},
+	{"pool-root", tChain, true, gen.LvlBase},
+	{"pool-root", tTcb, true, gen.LvlColl},
+	{"pool-root", tQe, true, gen.LvlColl},
+	{"tcbinfo-document", tTcb, false, gen.LvlColl},
+	{"tcbinfo-signer", tTcb, true, gen.LvlColl},
+	{"tcbinfo-header-root", tTcb, false, gen.LvlColl},
+	{"qeidentity-document", tQe, false, gen.LvlColl},
+	{"qeidentity-signer", tQe, true, gen.LvlColl},
+	{"qeidentity-header-root", tQe, false, gen.LvlColl},
+	{"pckcrl", tPckCrl, false, gen.LvlCRL},
+	{"pckcrl-header-signer", tPckCrl, false, gen.LvlCRL},
+	{"pckcrl-header-root", tPckCrl, false, gen.LvlCRL},
+	{"rootcrl", tRootCrl, false, gen.LvlCRL},
 }
+
+// The shape Intel's PCS actually serves: ONE root certificate everywhere, the PCK-CRL issuer
+// chain is the quote's own intermediate and root, one signer certificate for both documents.
+// The same certificate is then judged at several times.
+var c06Shared = []judgement{
+	{"leaf", tChain, true, gen.LvlBase},
+	{"intermediate", tChain, true, gen.LvlBase},
+	{"intermediate", tPckCrl, false, gen.LvlCRL},
+	{"pool-root", tChain, true, gen.LvlBase},
+	{"pool-root", tTcb, true, gen.LvlColl},
+	{"pool-root", tQe, true, gen.LvlColl},
+	{"pool-root", tPckCrl, false, gen.LvlCRL},
+	{"tcbinfo-document", tTcb, false, gen.LvlColl},
+	{"tcbinfo-signer", tTcb, true, gen.LvlColl},
+	{"tcbinfo-signer", tQe, true, gen.LvlColl},
+	{"qeidentity-document", tQe, false, gen.LvlColl},
+	{"pckcrl", tPckCrl, false, gen.LvlCRL},
+	{"rootcrl", tRootCrl, false, gen.LvlCRL},
+}
+
+var c06Names = []string{"leaf", "intermediate", "quote-chain-root", "pool-root", "tcbinfo-document", "tcbinfo-signer", "tcbinfo-header-root", "qeidentity-document", "qeidentity-signer", "qeidentity-header-root", "pckcrl", "pckcrl-header-signer", "pckcrl-header-root", "rootcrl"}
 
 type c06World struct {
-	win   map[string]gen.Window
-	times [5]time.Time
+	win    map[string]gen.Window
+	times  [5]time.Time
+	shared bool
+}
+
+func (c *c06World) judgements() []judgement {
+	if c.shared {
+		return c06Shared
+	}
+	return c06Separate
 }
 
 func (c *c06World) timeSet() verify.TimeSet {
@@ -57,22 +89,17 @@ func (c *c06World) timeSet() verify.TimeSet {
 
 // model returns the reason for rejection at level l, or "".
 func (c *c06World) model(l gen.Level) string {
-	for _, a := range c06Artifacts {
-		if l < a.minLevel {
+	for _, j := range c.judgements() {
+		if l < j.minLevel {
 			continue
 		}
-		w := c.win[a.name]
-		for _, ti := range a.times {
-			if a.name == "pool-root" && ti != tChain && l < gen.LvlColl {
-				continue
-			}
-			at := c.times[ti]
-			if at.After(w.NotAfter) {
-				return fmt.Sprintf("%s expired at %s", a.name, timeNames[ti])
-			}
-			if a.nb && at.Before(w.NotBefore) {
-				return fmt.Sprintf("%s not yet valid at %s", a.name, timeNames[ti])
-			}
+		w := c.win[j.name]
+		at := c.times[j.ti]
+		if at.After(w.NotAfter) {
+			return fmt.Sprintf("%s expired at %s", j.name, timeNames[j.ti])
+		}
+		if j.nb && at.Before(w.NotBefore) {
+			return fmt.Sprintf("%s not yet valid at %s", j.name, timeNames[j.ti])
 		}
 	}
 	return ""
@@ -90,18 +117,27 @@ func (c *c06World) build(s *gen.Stream, id string) (*gen.World, *gen.Cert) {
 	tcbHdrRoot := mkRoot("tcbinfo-header-root", 3)
 	qeHdrRoot := mkRoot("qeidentity-header-root", 4)
 	crlHdrRoot := mkRoot("pckcrl-header-root", 5)
+	if c.shared {
+		quoteRoot, tcbHdrRoot, qeHdrRoot, crlHdrRoot = poolRoot, poolRoot, poolRoot, poolRoot
+	}
 	mkInt := func(name string, serial byte) *gen.Cert {
 		w := c.win[name]
 		return gen.MakeCert(gen.CertSpec{CN: gen.CNPlatform, KeyLabel: "c06/" + id + "/int", Serial: []byte{0x20, serial}, NotBefore: w.NotBefore, NotAfter: w.NotAfter, CA: true, CRLDP: []string{gen.RootCrlURL}}, poolRoot)
 	}
 	inter := mkInt("intermediate", 1)
 	crlHdrInt := mkInt("pckcrl-header-signer", 2)
+	if c.shared {
+		crlHdrInt = inter
+	}
 	mkSigner := func(name, label string, serial byte) *gen.Cert {
 		w := c.win[name]
 		return gen.MakeCert(gen.CertSpec{CN: gen.CNTcbSigner, KeyLabel: "c06/" + id + "/" + label, Serial: []byte{0x30, serial}, NotBefore: w.NotBefore, NotAfter: w.NotAfter, CRLDP: []string{gen.RootCrlURL}}, poolRoot)
 	}
 	tcbSigner := mkSigner("tcbinfo-signer", "tcb", 1)
 	qeSigner := mkSigner("qeidentity-signer", "qe", 2)
+	if c.shared {
+		qeSigner = tcbSigner
+	}
 	p := &gen.PKI{Spec: gen.PKISpec{Seed: "c06/" + id}, Root: quoteRoot, Int: inter, TcbSig: tcbSigner, QeSig: qeSigner}
 	w := gen.NewWorld(p, s)
 	w.LeafSpec.W = c.win["leaf"]
@@ -129,10 +165,10 @@ func (c *c06World) build(s *gen.Stream, id string) (*gen.World, *gen.Cert) {
 var farBefore = gen.T0.AddDate(-30, 0, 0)
 var farAfter = gen.T0.AddDate(60, 0, 0)
 
-func c06Fresh(times [5]time.Time) *c06World {
-	c := &c06World{win: map[string]gen.Window{}, times: times}
-	for _, a := range c06Artifacts {
-		c.win[a.name] = gen.Window{NotBefore: farBefore, NotAfter: farAfter}
+func c06Fresh(times [5]time.Time, shared bool) *c06World {
+	c := &c06World{win: map[string]gen.Window{}, times: times, shared: shared}
+	for _, n := range c06Names {
+		c.win[n] = gen.Window{NotBefore: farBefore, NotAfter: farAfter}
 	}
 	return c
 }
@@ -201,47 +237,50 @@ func distinctTimes(s *gen.Stream) [5]time.Time {
 func TestC06(t *testing.T) {
 	replayDir(t, "C06")
 	levels := []gen.Level{gen.LvlBase, gen.LvlColl, gen.LvlCRL}
-	// (1) the boundary grid: every bound of every artifact x {-1s, 0, +1s} x each governing time, others far away.
+	// (1) the boundary grid: every judgement (artifact at a governing time) x bound x {-1s, 0, +1s}, others far
+	// away; once with a separate certificate per role, once with the shared-certificate shape Intel serves.
 	gen.Direct(t, "boundary-grid", func(t *testing.T) {
 		reps := gen.N(1, 24)
 		idx := 0
 		for rep := 0; rep < reps; rep++ {
 			s := gen.NewStream(gen.ProcSeed()*131+uint64(rep), "c06grid")
-			for _, a := range c06Artifacts {
-				for _, bound := range []string{"notAfter", "notBefore"} {
-					if bound == "notBefore" && !a.nb {
-						continue
-					}
-					for _, ti := range a.times {
+			for _, shared := range []bool{false, true} {
+				js := c06Separate
+				if shared {
+					js = c06Shared
+				}
+				for _, j := range js {
+					for _, bound := range []string{"notAfter", "notBefore"} {
+						if bound == "notBefore" && !j.nb {
+							continue
+						}
 						for _, off := range []int{-1, 0, 1} {
 							idx++
 							if gen.Tier() == "thorough" && !gen.ShardOwns(idx) {
 								continue
 							}
-							c := c06Fresh(distinctTimes(s))
-							w := c.win[a.name]
-							at := c.times[ti].Add(time.Duration(-off) * time.Second) // governing time = bound + off
+							c := c06Fresh(distinctTimes(s), shared)
+							w := c.win[j.name]
+							at := c.times[j.ti].Add(time.Duration(-off) * time.Second) // governing time = bound + off
 							if bound == "notAfter" {
 								w.NotAfter = at
 							} else {
 								w.NotBefore = at
 							}
-							c.win[a.name] = w
-							// the pool root is judged at three times: keep the other two inside the window
-							if a.name == "pool-root" {
-								for _, tj := range a.times {
-									if tj == ti {
-										continue
-									}
-									if bound == "notAfter" && c.times[tj].After(w.NotAfter) {
-										c.times[tj] = w.NotAfter.Add(-time.Duration(1000+tj) * time.Hour)
-									}
-									if bound == "notBefore" && c.times[tj].Before(w.NotBefore) {
-										c.times[tj] = w.NotBefore.Add(time.Duration(1000+tj) * time.Hour)
-									}
+							c.win[j.name] = w
+							// a certificate judged at several times: keep its other governing times well inside the window
+							for _, o := range js {
+								if o.name != j.name || o.ti == j.ti {
+									continue
+								}
+								if bound == "notAfter" && !c.times[o.ti].Before(w.NotAfter) {
+									c.times[o.ti] = w.NotAfter.Add(-time.Duration(1000+o.ti) * time.Hour)
+								}
+								if bound == "notBefore" && !c.times[o.ti].After(w.NotBefore) {
+									c.times[o.ti] = w.NotBefore.Add(time.Duration(1000+o.ti) * time.Hour)
 								}
 							}
-							desc := fmt.Sprintf("%s.%s judged at %s = bound%+ds", a.name, bound, timeNames[ti], off)
+							desc := fmt.Sprintf("%s.%s judged at %s = bound%+ds (shared certificates=%v)", j.name, bound, timeNames[j.ti], off, shared)
 							gen.NonTrivial(desc, rep)
 							if idx%23 == 0 {
 								gen.Sample("grid", desc)
@@ -254,17 +293,17 @@ func TestC06(t *testing.T) {
 				}
 			}
 		}
-		gen.Exhaustive("boundary grid: every verdict-relevant bound x governing time x {-1s, at, +1s}, other artifacts decades away, five distinct times", true)
+		gen.Exhaustive("boundary grid: every verdict-relevant bound x governing time x {-1s, at, +1s}, other artifacts decades away, five distinct times; separate and shared certificate shapes", true)
 	})
 	// (2) random assignments: several artifacts near / past their bounds at once.
 	gen.Prop(t, "random-windows", gen.N(700, 60000), func(t *rapid.T) {
 		s := gen.NewStream(rapid.Uint64().Draw(t, "content"), "c06r")
-		c := c06Fresh(distinctTimes(s))
+		c := c06Fresh(distinctTimes(s), rapid.Bool().Draw(t, "shared"))
 		k := rapid.IntRange(0, 3).Draw(t, "tight")
-		var desc []string
+		desc := []string{fmt.Sprintf("shared=%v", c.shared)}
 		for i := 0; i < k; i++ {
-			a := rapid.SampledFrom(c06Artifacts).Draw(t, "artifact")
-			ti := rapid.SampledFrom(a.times).Draw(t, "time")
+			a := rapid.SampledFrom(c.judgements()).Draw(t, "artifact")
+			ti := a.ti
 			off := rapid.SampledFrom([]int64{-86400 * 400, -3600, -1, 0, 1, 3600, 86400 * 400}).Draw(t, "offset")
 			w := c.win[a.name]
 			which := "notAfter"
@@ -281,7 +320,7 @@ func TestC06(t *testing.T) {
 			desc = append(desc, fmt.Sprintf("%s.%s@%s%+ds", a.name, which, timeNames[ti], off))
 		}
 		d := fmt.Sprint(desc)
-		if len(desc) >= 2 {
+		if len(desc) >= 3 {
 			gen.NonTrivial(d)
 		}
 		gen.Sample("random", d)
@@ -291,7 +330,7 @@ func TestC06(t *testing.T) {
 	gen.Direct(t, "default-time-set", func(t *testing.T) {
 		now := time.Now()
 		for _, expired := range []bool{false, true} {
-			c := c06Fresh([5]time.Time{now, now, now, now, now})
+			c := c06Fresh([5]time.Time{now, now, now, now, now}, expired)
 			for n := range c.win {
 				c.win[n] = gen.Window{NotBefore: now.AddDate(-2, 0, 0), NotAfter: now.AddDate(3, 0, 0)}
 			}
